@@ -117,6 +117,21 @@ def denial_wrapper(p: Program, call: FuncInfo, idx: int):
     if not resp_calls:
         return None, None
     a = resp_calls[0].args[idx]
+    # the wrapper as a module-level coroutine bound to the raw channel: functools.partial(_denial_receive, receive), given directly
+    # or through a single-assignment local
+    pa_ = a
+    if isinstance(a, ast.Name):
+        binds = [st.value for st in ast.walk(call.node) if isinstance(st, ast.Assign) and len(st.targets) == 1 and isinstance(st.targets[0], ast.Name) and st.targets[0].id == a.id]
+        if len(binds) == 1:
+            pa_ = binds[0]
+    if isinstance(pa_, ast.Call) and ast.unparse(pa_.func).split(".")[-1] == "partial" and pa_.args and isinstance(pa_.args[0], ast.Name) and len(pa_.args) == 2 \
+            and isinstance(pa_.args[1], ast.Name) and pa_.args[1].id in call.params and not pa_.keywords:
+        try:
+            mf = p.module(WS).functions.get(pa_.args[0].id)
+        except Exception:
+            mf = None
+        if mf is not None and mf.params and mf.name.startswith("_"):
+            return mf, None
     if isinstance(a, ast.Name):
         return nested_fn(call, a.id, passed_as_argument(call)), None
     if isinstance(a, ast.Attribute) and isinstance(a.value, ast.Name):
